@@ -4,7 +4,6 @@ import (
 	"fmt"
 	"go/ast"
 	"go/constant"
-	"go/printer"
 	"go/token"
 	"regexp"
 	"sort"
@@ -246,40 +245,51 @@ func genVersions(repo string) (string, error) {
 	}
 	out += fmt.Sprintf("/-- gobin/exe.go `fitInt32`: its integer literals in order (length limit, slice bound, zero, base, bit size). -/\ndef gobinFitLits : List Nat := %s\n", LeanNatList(rxIntLitsInOrder(gp, fit)))
 
-	// ---- toolkit/types/version.go is a copy of version.go: the ordering methods have the same text
-	rootP, err := rxLoadPkg(repo, ".")
+	// ---- toolkit/types/version.go is a copy of version.go: EVALUATED (round 2). The probe
+	// go/cmd/rxprobe/versioncopy runs the methods of both copies on one table of boundary values
+	// (440 versions: every pair for Compare, ranges × versions for Contains, every version for String and
+	// MarshalText, ~390 texts into fresh, used and nil receivers for UnmarshalText) and compares the answers:
+	// rewriting one copy is quiet while both answer alike, a divergence is printed with its first input.
+	var vc struct {
+		Same  map[string]bool   `json:"same"`
+		First map[string]string `json:"first"`
+	}
+	if err := rxProbe(repo, "versioncopy", map[string]any{}, &vc); err != nil {
+		return "", err
+	}
+	copyList := func(names ...string) (string, error) {
+		var same []string
+		for _, n := range names {
+			v, ok := vc.Same[n]
+			if !ok {
+				return "", fmt.Errorf("versioncopy probe: no answer for %s", n)
+			}
+			same = append(same, fmt.Sprintf("(%s, %v)", LeanString(n), v))
+		}
+		txt := "[" + strings.Join(same, ", ") + "]\n"
+		for _, n := range names {
+			if d := vc.First[n]; d != "" {
+				d = strings.Join(strings.Fields(d), " ")
+				if len(d) > 400 {
+					d = d[:400] + " …"
+				}
+				txt += "-- " + n + " differs: " + strings.ReplaceAll(d, "-/", "- /") + "\n"
+			}
+		}
+		return txt, nil
+	}
+	l1, err := copyList("Version.Compare", "Range.Contains", "Version.String")
 	if err != nil {
 		return "", err
 	}
-	tkP, err := rxLoadPkg(repo, "toolkit/types")
+	l2, err := copyList("Version.MarshalText", "Version.UnmarshalText")
 	if err != nil {
 		return "", err
 	}
-	body := func(p *rxPkg, recv, name string) (string, error) {
-		fd := p.Func(recv, name)
-		if fd == nil || fd.Body == nil {
-			return "", fmt.Errorf("version copy: (%s).%s not found in %s", recv, name, p.dir)
-		}
-		var b strings.Builder
-		if err := printer.Fprint(&b, p.fset, fd.Body); err != nil {
-			return "", err
-		}
-		return b.String(), nil
-	}
-	var same []string
-	for _, m := range [][2]string{{"Version", "Compare"}, {"Range", "Contains"}, {"Version", "String"}} {
-		a, err := body(rootP, m[0], m[1])
-		if err != nil {
-			return "", err
-		}
-		b, err := body(tkP, m[0], m[1])
-		if err != nil {
-			return "", err
-		}
-		same = append(same, fmt.Sprintf("(%s, %v)", LeanString(m[0]+"."+m[1]), a == b))
-	}
-	out += "\n/-- version.go against toolkit/types/version.go: is the body of the method the same text? -/\n"
-	out += "def toolkitCopySame : List (String × Bool) := [" + strings.Join(same, ", ") + "]\n"
+	out += "\n/-- version.go against toolkit/types/version.go: do the two copies of the method answer alike on the table of boundary values? -/\n"
+	out += "def toolkitCopySame : List (String × Bool) := " + l1
+	out += "\n/-- the same for the text codec of Version -/\n"
+	out += "def toolkitCopyCodecSame : List (String × Bool) := " + l2
 	return out + Footer("Versions"), nil
 }
 
